@@ -108,3 +108,19 @@ Proof.
     cbn [ls_next ls_latest ls_received ls_illegal] in IH. destruct IH as (A & B & C & D).
     repeat split; try lia; assumption.
 Qed.
+
+(* accounting: NewCertificates counts a subset of the received ones, and the cursor/received/new counters never go back *)
+Lemma lstep_counters s it :
+  ls_next s <= ls_next (lstep s it) /\ 0 <= ls_new (lstep s it) - ls_new s <= ls_received (lstep s it) - ls_received s.
+Proof.
+  unfold lstep. destruct (ls_illegal s); [lia|]. destruct it as [n v|]; cbn [ls_next ls_new ls_received]; [|lia].
+  destruct ((n =? ls_next s) && v) eqn:E; cbn [negb ls_next ls_new ls_received]; [|lia].
+  apply andb_true_iff in E. destruct E as [En _]. apply Z.eqb_eq in En.
+  destruct (ls_latest s <? n); cbn [ls_next ls_new ls_received]; lia.
+Qed.
+Theorem new_counts_subset_of_received its : forall s,
+  ls_next s <= ls_next (lrun s its) /\ 0 <= ls_new (lrun s its) - ls_new s <= ls_received (lrun s its) - ls_received s.
+Proof.
+  induction its as [|it r IH]; intros s; unfold lrun; cbn [fold_left]; [lia|].
+  fold (lrun (lstep s it) r). pose proof (lstep_counters s it). specialize (IH (lstep s it)). lia.
+Qed.
